@@ -20,7 +20,7 @@ import re
 from hypothesis import strategies as st
 
 from vf import runner
-from vf.engine import Case, Failure, h, live_first
+from vf.engine import Case, Failure, h, live_first, deviation_sets
 from vf.project import Project
 from vf.render import c16_classes as rc
 
@@ -364,12 +364,9 @@ def check(case) -> Case:
                 # does a modelled deviation explain the observation exactly?
                 known = None
                 app = applicable(info, lang)
-                for n in range(1, len(app) + 1):
-                    for devs in itertools.combinations(app, n):
-                        if _judge(info, expected_parts(info, lang, eff, devs), obs) is None:
-                            known = devs
-                            break
-                    if known:
+                for devs in deviation_sets("C16", app):
+                    if _judge(info, expected_parts(info, lang, eff, devs), obs) is None:
+                        known = devs
                         break
                 detail = {"lang": lang, "class": info["name"], "truth": {k: info[k] for k in ("m", "loc", "phys", "line")},
                           "effective": {"max_methods": M, "max_loc": L, "check_keywords": eff[2], "keywords": eff[3]},
